@@ -27,6 +27,18 @@ CHECKS = {
          "Every distinct document reached (replicas, merges, documents holding queued orphans, B3 with DEFLATEd columns, 4 text encodings) x {deflate} x {retain_orphans}: load(save) equal in reads, change bytes, historical reads at every consistent cut, pending queue; save(load(save)) byte-identical.",
          "Encoding is supplied to the loader (not stored in the file).",
          "DESIGN.md §4 C11", H),
+ "C12": ("model_checking", "explicit-state BFS over writer/peer/save actions; every load order of the pieces",
+         "All programs within budgets over {edit (uncommitted), peer edit, merge, save, save_incremental, save_after(h)}; in every state each save + everything after it loads to the writer's document, a copy of the writer at piece k fed the later pieces in every order equals it, and re-feeding is a no-op.",
+         "Budgets: edits<=2(3), peer edits<=1, pieces<=3(4).",
+         "DESIGN.md §4 C12", "mc-storage"),
+ "C13": ("fault_enumeration", "exhaustive crash-point enumeration (every byte offset) over files produced by the C12 explorer",
+         "Every byte offset of every distinct save+incremental file the explorer produces (thousands of files): strict load iff chunk boundary; partial load equals the document of the complete chunks; never a panic.",
+         "Chunk boundaries from the harness's own grammar; expected document built chunk by chunk.",
+         "DESIGN.md §4 C13", "mc-storage"),
+ "C14": ("fault_enumeration", "exhaustive single-bit-flip (and byte-overwrite) enumeration over saved outputs",
+         "Every single-bit flip (thorough: every byte value) of save files, incremental files, raw and DEFLATEd change bytes and a bundle must make load fail; violations are classified by flip site and identical/different document. One known finding (DEFLATE padding bits, identical document).",
+         "32-bit checksum collisions would be deterministic, not flaky.",
+         "DESIGN.md §4 C14", "mc-storage"),
  "C18": ("model_checking", "explicit-state BFS + exhaustive subset enumeration for bundles + enumerated hand-built expanded changes",
          "Every change of every document reached round-trips through raw bytes, compressed bytes and decode/encode with the same hash; every subset (<=5) of new changes bundles to byte-identical changes and loads like apply_changes; ~2.2k hand-built expanded changes (actions x scalar extremes x key/pred shapes) encode/decode/reload.",
          "Hand-built changes stay inside documented ranges.",
@@ -99,6 +111,8 @@ def main():
              "kind_free_text": "level-synchronous parallel BFS over worlds of real Automerge replicas; canonical key = heads+actor+budgets; confluence check on key merges; per-state and per-transition oracles"},
             {"name": "mc-replicas", "path": "/verif/amc/src/props/c04.rs, /verif/amc/src/props/c38.rs", "serves_properties": [p for p in ALL if p in CHECKS and CHECKS[p][5] == "mc-replicas"],
              "kind_free_text": "explicit-state BFS over replica-level actions (commit, merge, fork, set_actor, isolate, deliver, save/load)"},
+            {"name": "mc-storage", "path": "/verif/amc/src/props/c12.rs, /verif/amc/src/props/c13.rs", "serves_properties": [p for p in ALL if p in CHECKS and CHECKS[p][5] == "mc-storage"],
+             "kind_free_text": "writer/peer/save explorer producing files; exhaustive cut-point and bit-flip enumeration over them"},
             {"name": "mc-sync", "path": "/verif/amc/src/syncmc.rs", "serves_properties": [p for p in ALL if p in CHECKS and CHECKS[p][5] == "mc-sync"],
              "kind_free_text": "explicit-state BFS over n real peers, per-link sync::State, FIFO channels of encoded messages, fault budgets (false positives, drops, cuts, restores, read-only toggles); fair-completion oracle from every state"},
         ],
